@@ -14,7 +14,7 @@ use ebml_iterable::TagWriter;
 pub static DEF: PropDef = PropDef {
     id: "C10",
     level: "exploration",
-    rule: "each case: a random conformant tree with known- and unknown-size masters interleaved (and random Full collapsing) is turned into a call history, truncated at a random point (so masters may be left open) and optionally ended with flush(); the destination is a recording sink and is inspected after every call. The monitor keeps its own shadow stack of open masters from the call history. Checks: (1) at every element/Full/End call that returned Ok while the shadow stack holds no known-size master, the destination content must be walked completely and exactly by the reference header decoder guided by the partial tree of tags accepted so far (open unknown-size masters included); (2) while a known-size master is open the destination length does not change; (3) after flush()/into_inner() the destination decodes to the whole tree with every master closed and nothing left over; (4) destination content only ever grows. distinct = (tree fingerprint, sequence of shadow-stack shapes (K/U strings) at observation points) plus each shape sequence by itself; non-trivial iff some observation point had depth >= 2 or the history was cut with masters open.",
+    rule: "each case: a random conformant tree with known- and unknown-size masters interleaved (and random Full collapsing) is turned into a call history (with write_raw() calls of unknown ids inserted at random positions in a third of the cases), truncated at a random point (so masters may be left open) and optionally ended with flush(); the destination is a recording sink and is inspected after every call. The monitor keeps its own shadow stack of open masters from the call history. Checks: (1) at every element/Full/End call that returned Ok while the shadow stack holds no known-size master, the destination content must be walked completely and exactly by the reference header decoder guided by the partial tree of tags accepted so far (open unknown-size masters included); (2) while a known-size master is open the destination length does not change; (3) after flush()/into_inner() the destination decodes to the whole tree with every master closed and nothing left over; (4) destination content only ever grows. distinct = (tree fingerprint, sequence of shadow-stack shapes (K/U strings) at observation points) plus each shape sequence by itself; non-trivial iff some observation point had depth >= 2 or the history was cut with masters open.",
     assumptions: &["the sink implements only io::Write, so bytes handed over cannot be retracted physically; the check is on completeness and timing", "unknown-size masters are never presented as Full (the writer ignores children there; outside C10's statement)"],
     cases_quick: 200_000,
     cases_thorough: 2_000_000,
@@ -53,6 +53,10 @@ fn partial_tree(calls: &[WCall]) -> Vec<Node> {
                 let n = from_full(it, *opt);
                 attach(&mut stack, &mut roots, n);
             }
+            WCall::WriteRaw(id, data) => {
+                let n = Node::leaf(Item::Raw(*id, data.clone()));
+                attach(&mut stack, &mut roots, n);
+            }
             _ => {}
         }
     }
@@ -78,6 +82,23 @@ fn run(c: &mut Case) {
     if cut {
         let n = c.rng.urange(1, calls.len() - 1);
         calls.truncate(n);
+    }
+    // raw writes (write_raw) at random positions: any id, no validation, same streaming rules as other elements
+    if c.rng.chance(1, 3) {
+        for _ in 0..c.rng.urange(1, 3) {
+            let id = loop {
+                let l = c.rng.urange(1, 4);
+                let id = gen::random_id(&mut c.rng, l);
+                if doc.spec.get(id).is_none() {
+                    break id;
+                }
+            };
+            let n = c.rng.urange(0, 12);
+            let pos = c.rng.urange(0, calls.len());
+            let data = c.rng.bytes(n);
+            calls.insert(pos, WCall::WriteRaw(id, data));
+            c.count("write_raw_calls");
+        }
     }
     let explicit_flush = c.rng.chance(1, 2);
     let mut w = TagWriter::new(ScriptedWrite::new().with_limits(if c.rng.chance(1, 4) { vec![7, 1, 3] } else { vec![] }));
@@ -119,6 +140,7 @@ fn run(c: &mut Case) {
                 observation = true;
             }
             WCall::Write(_, _) => observation = true,
+            WCall::WriteRaw(..) => observation = true,
             _ => {}
         }
         let known_open_after = shadow.iter().any(|k| *k);
@@ -183,7 +205,7 @@ fn run(c: &mut Case) {
                 Err(e) => c.violation(format!("C10/final-incomplete/open{}", open_at_end.min(4)), format!("after into_inner() the destination does not decode to the whole tree: {}", e), wit(&calls, calls.len() - 1, &sink.data, &e)),
                 Ok(lay) => {
                     c.add("elements_in_final_output", lay.len() as u64);
-                    if !cut && flat(&full) != flat(&doc.tree) {
+                    if !cut && !calls.iter().any(|x| matches!(x, WCall::WriteRaw(..))) && flat(&full) != flat(&doc.tree) {
                         // harness self-check: the partial-tree builder must reproduce the generated tree
                         panic!("partial_tree mismatch");
                     }
